@@ -25,6 +25,10 @@ pub struct C13Case {
     /// rejected registration first: 0 none, 1 forbidden signal, 2 invalid signal, 3 closed descriptor, 4 descriptor -1
     pub reject: u8,
     pub reuse_probe: bool,
+    /// the interrupted thread's errno at the instant of each delivery (what an earlier,
+    /// unrelated system call left behind): 0 untouched, 1 EINTR, 2 EAGAIN, 3 EBADF, 4 EPIPE
+    #[serde(default)]
+    pub errno_before: u8,
 }
 
 pub fn strategy() -> BoxedStrategy<C13Case> {
@@ -37,8 +41,9 @@ pub fn strategy() -> BoxedStrategy<C13Case> {
         prop::bool::weighted(0.3),
         prop_oneof![5 => Just(0u8), 1 => Just(1u8), 1 => Just(2u8), 1 => Just(3u8), 1 => Just(4u8)],
         prop::bool::weighted(0.5),
+        prop_oneof![3 => Just(0u8), 2 => Just(1u8), 1 => Just(2u8), 1 => Just(3u8), 1 => Just(4u8)],
     )
-        .prop_map(|(kind, raw, fill, k, bursts, second, reject, reuse_probe)| C13Case { kind, raw, fill, k, bursts, second, reject, reuse_probe })
+        .prop_map(|(kind, raw, fill, k, bursts, second, reject, reuse_probe, errno_before)| C13Case { kind, raw, fill, k, bursts, second, reject, reuse_probe, errno_before })
         .boxed()
 }
 
@@ -252,8 +257,20 @@ fn child(case: &C13Case, fd: i32) {
     let mut first = true;
     for (bi, n) in case.bursts.iter().enumerate() {
         emit(fd, &json!({"k": "burst-start", "i": bi, "n": n}));
+        let e = match case.errno_before % 5 {
+            1 => libc::EINTR,
+            2 => libc::EAGAIN,
+            3 => libc::EBADF,
+            4 => libc::EPIPE,
+            _ => 0,
+        };
         for _ in 0..*n {
-            unsafe { libc::raise(SIG) };
+            unsafe {
+                if e != 0 {
+                    *libc::__errno_location() = e;
+                }
+                libc::raise(SIG)
+            };
         }
         let got = drain(r, kind);
         let xs = got.iter().filter(|b| **b == b'X').count();
@@ -450,6 +467,9 @@ pub fn run_case(case: &C13Case) -> CaseReport {
         if s["x"].as_u64().unwrap_or(0) != 1 {
             rep.viol("C13/count", format!("after removing the first self-pipe the second one received {} bytes for one delivery", s["x"]));
         }
+    }
+    if case.errno_before % 5 != 0 {
+        rep.class("errno-left-by-earlier-call");
     }
     if case.fill == 2 {
         rep.class("full");
